@@ -1,3 +1,4 @@
+from urllib.parse import urljoin
 from shexer.model.shape import STARTING_CHAR_FOR_SHAPE_NAME
 
 XSD_NAMESPACE = "http://www.w3.org/2001/XMLSchema#"
@@ -73,8 +74,8 @@ def decide_literal_type(a_literal, base_namespace=None):
         return STRING_TYPE
     elif suffix.startswith("^^<") and suffix.endswith(">"):
         candidate_type = suffix[3:-1]  # plain uri, no corners
-        if base_namespace is not None and not candidate_type.startswith("http"):
-            return base_namespace + candidate_type
+        if base_namespace is not None:  # relative datatype IRIs are resolved against the base; absolute ones stay
+            return urljoin(base_namespace, candidate_type)
         return candidate_type
     elif suffix.startswith("^^xsd:"):
         return XSD_NAMESPACE + suffix[6:]
